@@ -108,7 +108,8 @@ def run_history(ops, path, prop, snap=False):
         env = dict(os.environ, VERIF_SNAPDIR=snapdir)
     text = render(ops)
     g, grc, gerr = run_harness(['store', path], text, env=env)
-    m, mrc, merr = run_oracle(text)
+    m, mrc, merr = run_oracle(render(with_observed_growth(ops, g)))
+    g = strip_growth_lines(g)
     d = first_diff(g, m)
     coll = ops[0]['op'] == 40
     sc = spec_check(ops, g) if coll else None
